@@ -30,8 +30,9 @@ def gen_rates(rng, max_up=300.0, max_down=3000.0):
             k = 1 << rng.below(9)
             ir, orr = (1, k) if rng.chance(.5) else (k, 1)
         elif c == 4:   # straddle planner thresholds of io_ratio
-            t = rng.choice([1.5, 2, 3, 4, 5, 16, 32, 64, 128, 256, 512, 1024, 2048])
-            eps = rng.choice([0, 1e-9, -1e-9, 1e-5, -1e-5, 1e-3, -1e-3])
+            t = rng.choice([1.5, 2, 3, 4, 5, 6, 7, 8, 12, 16, 32, 64, 128, 256, 512, 1024, 2048])
+            # ... down to fractions of one unit of the 32.32 clock (2^-32 = 2.3e-10): where the planner's rounding decides
+            eps = rng.choice([0, 1e-9, -1e-9, 1e-5, -1e-5, 1e-3, -1e-3, 1e-10, -1e-10, 5e-11, -5e-11, 2e-11, -2e-11])
             ir, orr = (t * (1 + eps), 1) if rng.chance(.5) else (1, t * (1 + eps))
         elif c == 5:   # coprime L/M; a third of them around the planner's limit for an exact poly-phase table (L <= 2048, table size vs coef_size_kbytes)
             hi = 400 if rng.chance(.65) else 4500
